@@ -12,6 +12,11 @@ import numpy as np
 _OPS = {'and_': operator.and_, 'or_': operator.or_, 'xor': operator.xor}
 
 
+def custom_and(a, b):
+    """A caller-supplied compound operator (any callable is allowed)."""
+    return np.logical_and(a, b)
+
+
 class Unbuildable(Exception):
     """The recipe describes an object whose *construction* fails."""
 
@@ -49,6 +54,8 @@ def build(r):
         return {k: build(v) for k, v in r['v']}
     if t == 'object':
         return object()
+    if t == 'callable':
+        return {'custom_and': custom_and}[r['v']]
     if t == 'q':
         import astropy.units as u
         return u.Quantity(build(r['v']), u.Unit(r['u']))
@@ -79,7 +86,8 @@ def build(r):
         import regions
         cls = getattr(regions, r['cls'])
         kw = dict(region1=build(r['r1']), region2=build(r['r2']),
-                  operator=_OPS[r['op']] if r['op'] in _OPS else build(r['op']))
+                  operator=_OPS[r['op']] if isinstance(r['op'], str)
+                  and r['op'] in _OPS else build(r['op']))
         if 'meta' in r:
             kw['meta'] = build(r['meta'])
         if 'visual' in r:
@@ -90,7 +98,8 @@ def build(r):
         return _OPS[r['op']](a, b)
     if t == 'regions':
         from regions import Regions
-        return Regions([build(x) for x in r['v']])
+        items = [build(x) for x in r['v']]
+        return Regions(tuple(items) if r.get('as') == 'tuple' else items)
     if t == 'wcs':
         return _wcs(r)
     if t == 'image':
@@ -128,9 +137,14 @@ def _sky(r):
     if isinstance(lon, list):
         lon = np.array(lon, dtype=float)
         lat = np.array(lat, dtype=float)
-    return SkyCoord(lon * u.Unit(r.get('unit', 'deg')),
-                    lat * u.Unit(r.get('unit', 'deg')),
-                    frame=r.get('frame', 'icrs'), **kw)
+    if r.get('distance'):
+        kw['distance'] = r['distance'] * u.kpc
+    sc = SkyCoord(lon * u.Unit(r.get('unit', 'deg')),
+                  lat * u.Unit(r.get('unit', 'deg')),
+                  frame=r.get('frame', 'icrs'), **kw)
+    if r.get('representation'):
+        sc.representation_type = r['representation']
+    return sc
 
 
 def _wcs(r):
@@ -150,7 +164,18 @@ def _wcs(r):
         w.wcs.radesys = r['radesys']
     if r.get('equinox'):
         w.wcs.equinox = r['equinox']
+    if r.get('sip'):
+        from astropy.wcs import Sip
+        a = np.zeros((3, 3))
+        b = np.zeros((3, 3))
+        a[0, 2], a[2, 0], a[1, 1] = 2e-5, -1e-5, 3e-6
+        b[0, 2], b[2, 0], b[1, 1] = -2e-5, 1e-5, 1e-6
+        w.sip = Sip(a, b, None, None, list(r['crpix']))
     w.wcs.set()
+    if r.get('pixel_shape'):
+        w.pixel_shape = tuple(r['pixel_shape'])
+    if r.get('pixel_bounds'):
+        w.pixel_bounds = [tuple(x) for x in r['pixel_bounds']]
     return w
 
 
@@ -162,6 +187,22 @@ def _image(r):
         data = rs.randint(0, 100, size=(ny, nx)).astype(r.get('dtype', 'int64'))
     else:
         data = rs.uniform(-1, 10, size=(ny, nx)).astype(r.get('dtype', 'float64'))
+    sp = r.get('special')
+    if sp == 'nan':
+        data[::7, ::5] = np.nan
+        data[3, 4] = np.inf
+        data[5, 6] = -np.inf
+    elif sp == 'masked':
+        data = np.ma.MaskedArray(data, mask=(data > 8))
+    elif sp == 'bigendian':
+        data = data.astype('>f8')
+    elif sp == 'fortran':
+        data = np.asfortranarray(data)
+    elif sp == 'strided':
+        big = rs.uniform(-1, 10, size=(2 * ny, 2 * nx))
+        data = big[::2, ::2]
+    elif sp == 'readonly':
+        data.setflags(write=False)
     if r.get('unit'):
         import astropy.units as u
         data = data * u.Unit(r['unit'])
